@@ -193,7 +193,7 @@ def c15(ctx, replay):
     ctx.assumptions += [
         "two builds of the same harness: dev profile (debug assertions and overflow checks on) and the workspace's release profile (both off); every event carries cfg!(debug_assertions)",
         "operands are in range (constructed unchecked from in-range values); I11/U11 pairs strided (quick) / exhaustive (thorough); 20/24/48-bit types: boundary pairs from the model plus seeded random and near-overflow pairs",
-        "negation is judged for the signed types that implement it (I11, I24, I48); I20 has no Neg impl; U11's Neg is outside the statement",
+        "negation is judged for the signed types that implement it (I11, I24, I48); I20 has no Neg impl; of U11's Neg (the statement speaks of signed negation only) just the range invariant is demanded: it panics or returns a value inside [MIN, MAX]",
     ]
     rej, _ = pipeline(ctx, "C15", replay, profiles=("debug", "release"))
     ctx.add_rejections(rej)
